@@ -205,13 +205,13 @@ var semCases = []semCase{
 	{"oneof-map-option", "package foo.v1\n\noneof C {\n  option a map:string\n}\n"},
 	{"inline-enum-empty", "package foo.v1\n\nobject Foo {\n  field a enum {\n  }\n}\n"},
 	{"empty-oneof", "package foo.v1\n\noneof C {\n}\n"},
-	{"capture-inline-name", "package foo.v1\n\nobject Foo {\n  field foo object {\n    field x string\n  }\n}\n"},
-	{"capture-deep", "package foo.v1\n\nobject Foo {\n  field bar object {\n    field foo object {\n    }\n  }\n}\n"},
-	{"self-ref", "package foo.v1\n\nobject Foo {\n  field next object:Foo\n}\n"},
-	{"readme-array-implicit-object", "package foo.v1\n\nobject Foo {\n  field bars array {\n    field barId key:id62\n  }\n}\n"},
-	{"array-singleForm", "package foo.v1\n\nobject Foo {\n  field bars array:string {\n    ext.singleForm = \"bar\"\n  }\n}\n"},
-	{"any-types", "package foo.v1\n\nobject Foo {\n  field a any {\n    type = \"foo.v1.Bar\"\n  }\n}\n"},
-	{"required-map", "package foo.v1\n\nobject Foo {\n  field m ! map:string\n}\n"},
+	{"VALID-capture-inline-name", "package foo.v1\n\nobject Foo {\n  field foo object {\n    field x string\n  }\n}\n"},
+	{"VALID-capture-deep", "package foo.v1\n\nobject Foo {\n  field bar object {\n    field foo object {\n    }\n  }\n}\n"},
+	{"VALID-self-ref", "package foo.v1\n\nobject Foo {\n  field next object:Foo\n}\n"},
+	{"VALID-readme-array-implicit-object", "package foo.v1\n\nobject Foo {\n  field bars array {\n    field barId key:id62\n  }\n}\n"},
+	{"VALID-array-singleForm", "package foo.v1\n\nobject Foo {\n  field bars array:string {\n    ext.singleForm = \"bar\"\n  }\n}\n"},
+	{"VALID-any-types", "package foo.v1\n\nobject Foo {\n  field a any {\n    type = \"foo.v1.Bar\"\n  }\n}\n"},
+	{"VALID-required-map", "package foo.v1\n\nobject Foo {\n  field m ! map:string\n}\n"},
 	{"optional-array", "package foo.v1\n\nobject Foo {\n  field m ? array:string\n}\n"},
 	{"flatten-scalar", "package foo.v1\n\nobject Foo {\n  field a string {\n    flatten = true\n  }\n}\n"},
 	{"nested-ref-dotted", "package foo.v1\n\nobject Foo {\n  field a object:Foo.Inner\n  object Inner {\n  }\n}\n"},
@@ -303,6 +303,9 @@ func genTotal(h *vh.H, i int) string {
 	i -= 2 * len(matrix)
 	if i < len(semCases) {
 		sc := semCases[i]
+		if strings.HasPrefix(sc.class, "VALID-") {
+			return srcOp("valid-"+strings.TrimPrefix(sc.class, "VALID-"), "foo/v1/a.j5s", sc.text, &j5sgen.Bundle{})
+		}
 		return srcOp("sem-"+sc.class, "foo/v1/a.j5s", sc.text, &j5sgen.Bundle{})
 	}
 	i -= len(semCases)
@@ -475,7 +478,9 @@ func execTotalAst(h *vh.H, op string, co *compileOp) string {
 	h.Nontrivial(op)
 	tag := "valid"
 	if iso {
-		tag = "isolated:" + isoName(co)
+		// findings are identified by the field type the rule sits on, not by the matrix cell
+		tag = "isolated:" + isoBase(co)
+		h.Count("total.cell." + isoName(co) + "." + cls)
 	}
 	switch cls {
 	case "panic":
@@ -514,6 +519,18 @@ func firstLine(s string) string {
 		return s[:i]
 	}
 	return s
+}
+
+// isoBase: the type that carries the rule (the container for array/map rules, else the innermost type).
+func isoBase(co *compileOp) string {
+	f := co.b.Pkg(co.pkg).Files[0].Elems[0].Object.Props[0].Field
+	if f.Items != nil && len(f.Rules) == 0 {
+		f = f.Items
+	}
+	if len(f.Rules) == 0 {
+		return f.Kind + "-plain"
+	}
+	return f.Kind
 }
 
 func isoName(co *compileOp) string {
@@ -623,6 +640,11 @@ func execTotalSrc(h *vh.H, op string, args []*j5sgen.Node) string {
 	})
 	h.Count("total." + kindClass(kind) + "." + cls)
 	src := "\n--- " + path + "\n" + parts[0]
+	if strings.HasPrefix(kind, "valid-") && strings.HasPrefix(cls, "err") {
+		// written within the documented language: must be accepted
+		h.Fail("c07-rejected:"+kind+":"+classify(compileErr.Error()), op, detail+src)
+		cls = "err"
+	}
 	switch cls {
 	case "panic":
 		h.Fail("c07-panic:"+kind+":"+classify(firstLine(detail)), op, detail+src)
